@@ -47,9 +47,9 @@ SPECS["C34"] = {
     "parts": [{"engine": "m", "module": "c34"}],
     "functions": ["dicom_parser::dataset::write::DataSetWriter::{write, write_impl} + StatefulEncoder + codecs over a failing writer", "dicom_ul::pdu::writer::write_pdu (A-ASSOCIATE-RQ arm, write_chunk_u16/u32) over a failing writer",
                   "dicom_ul::association::read_pdu_from_wire + read_pdu over a failing transport"],
-    "bounds": "failing call index k: any (8-bit symbolic; the streams make 10-25 calls) or none; data set: one token stream of 13 tokens x {default, NoChange} x {ele} (thorough: ele, ile, ebe); PDU writer: A-ASSOCIATE-RQ with 1 context and 4 user items; "
+    "bounds": "failing call index k: any (8-bit symbolic; the streams make 10-25 calls) or none; failure kind for the data set writer: I/O error or zero-length write (Ok(0) from write, WriteZero from write_all); data set: one token stream of 13 tokens x {default, NoChange} x {ele} (thorough: ele, ile, ebe); PDU writer: A-ASSOCIATE-RQ with 1 context and 4 user items; "
               "receiver: stream p1+rq in up to 3 reads of solver-chosen sizes with the failure at any read",
-    "outside": "whole files and the file meta group, the deflate data set adapter and its flushing, PDataWriter::finish on drop, zero-length writes (Ok(0)), failures of flush(), asynchronous senders / receivers, other PDUs",
+    "outside": "whole files and the file meta group, the deflate data set adapter and its flushing, PDataWriter::finish on drop, zero-length writes in the PDU writer, partial writes, failures of flush(), asynchronous senders / receivers, other PDUs",
     "assumptions": ["the writer is a contract: every write_all / byteorder write is one call that either appends all its bytes or fails with an I/O error (a real io::Write may also write partially; write_all hides that)",
                     "the native replay uses a Write / Read implementation failing at the same call index; the call counts of the encoding and of the real code coincided on every replayed instance"],
 }
